@@ -2,11 +2,11 @@ package main
 
 import (
 	"encoding/json"
-	"unicode/utf8"
 	"fmt"
 	"reflect"
 	"runtime/debug"
 	"time"
+	"unicode/utf8"
 	"unsafe"
 
 	"github.com/philpearl/plenc"
@@ -20,12 +20,41 @@ import (
 type M = map[string]any
 
 // Cfg is the instance configuration of a case.
+// markerCodec is a custom codec for abs.Marked: a little-endian fixed32 (so that the wire type alone tells
+// it from the kind's default zig-zag varint).
+type markerCodec struct{}
+
+func (markerCodec) Omit(ptr unsafe.Pointer) bool { return *(*int32)(ptr) == 0 }
+func (markerCodec) Read(data []byte, ptr unsafe.Pointer, wt plenccore.WireType) (int, error) {
+	if len(data) == 0 {
+		*(*int32)(ptr) = 0
+		return 0, nil
+	}
+	if len(data) < 4 {
+		return 0, fmt.Errorf("marker: short data")
+	}
+	*(*int32)(ptr) = int32(uint32(data[0]) | uint32(data[1])<<8 | uint32(data[2])<<16 | uint32(data[3])<<24)
+	return 4, nil
+}
+func (markerCodec) New() unsafe.Pointer          { return unsafe.Pointer(new(int32)) }
+func (markerCodec) WireType() plenccore.WireType { return plenccore.WT32 }
+func (markerCodec) Descriptor() plenccodec.Descriptor {
+	return plenccodec.Descriptor{Type: plenccodec.FieldTypeInt}
+}
+func (markerCodec) Size(ptr unsafe.Pointer, tag []byte) int { return 4 + len(tag) }
+func (markerCodec) Append(data []byte, ptr unsafe.Pointer, tag []byte) []byte {
+	v := uint32(*(*int32)(ptr))
+	data = append(data, tag...)
+	return append(data, byte(v), byte(v>>8), byte(v>>16), byte(v>>24))
+}
+
 type Cfg struct {
-	ProtoTime   bool `json:"protoTime"`
-	ProtoArrays bool `json:"protoArrays"`
-	Null        bool `json:"null"`    // null.* codecs added
-	JSONAny     bool `json:"jsonany"` // JSONMapCodec / JSONArrayCodec registered for map[string]any / []any
-	BQ          bool `json:"bq"`      // BQTimestampCodec registered for time.Time under tag "flattime"
+	ProtoTime   bool   `json:"protoTime"`
+	ProtoArrays bool   `json:"protoArrays"`
+	Null        bool   `json:"null"`    // null.* codecs added
+	JSONAny     bool   `json:"jsonany"` // JSONMapCodec / JSONArrayCodec registered for map[string]any / []any
+	BQ          bool   `json:"bq"`      // BQTimestampCodec registered for time.Time under tag "flattime"
+	Marker      string `json:"marker"`  // "", "plain", "tagged", "both": marker codec registered for abs.Marked (under tag "mk")
 }
 
 func newInstance(c Cfg) *plenc.Plenc {
@@ -40,6 +69,12 @@ func newInstance(c Cfg) *plenc.Plenc {
 	}
 	if c.BQ {
 		p.RegisterCodecWithTag(reflect.TypeOf(time.Time{}), "flattime", plenccodec.BQTimestampCodec{})
+	}
+	if c.Marker == "plain" || c.Marker == "both" {
+		p.RegisterCodec(reflect.TypeOf(abs.Marked(0)), markerCodec{})
+	}
+	if c.Marker == "tagged" || c.Marker == "both" {
+		p.RegisterCodecWithTag(reflect.TypeOf(abs.Marked(0)), "mk", markerCodec{})
 	}
 	return p
 }
@@ -66,12 +101,12 @@ func instanceFor(h *caseHdr) *plenc.Plenc {
 }
 
 type caseHdr struct {
-	Sess *int           `json:"sess"` // cases of one session share a Plenc instance (history); nil = fresh instance
-	Ev  string          `json:"ev"`
-	ID  int             `json:"id"`
-	Cfg Cfg             `json:"cfg"`
-	T   *abs.TD         `json:"T"`
-	V   json.RawMessage `json:"v"`
+	Sess *int            `json:"sess"` // cases of one session share a Plenc instance (history); nil = fresh instance
+	Ev   string          `json:"ev"`
+	ID   int             `json:"id"`
+	Cfg  Cfg             `json:"cfg"`
+	T    *abs.TD         `json:"T"`
+	V    json.RawMessage `json:"v"`
 }
 
 func decodeAny(raw json.RawMessage) any {
